@@ -315,6 +315,32 @@ func ApplyEdits(r *vh.Rand, b *Bundle, pkg string, n int) []EditRec {
 				Props: []*Property{{Name: "v", F: &Field{Kind: "scalar", Scalar: &Scalar{Kind: "string"}}}}}}
 			*site.props = append(*site.props, p)
 			recs = append(recs, EditRec{"field", site.desc, p.Name + " objinline named like referenced type " + names[i], site.at.fieldEdit(r, p)})
+		case k < 22 && len(msgs) > 0: // field referring to a well-known type - also the type of the implicit leading field of a topic message
+			var cands []msgSite
+			for _, m := range msgs {
+				if strings.HasSuffix(m.desc[:strings.Index(m.desc, ":")], "/topic") || r.Chance(25) {
+					cands = append(cands, m)
+				}
+			}
+			if len(cands) == 0 {
+				continue
+			}
+			site := vh.Pick(r, cands)
+			sc := scopeOfMessage(site.path, *site.props, site.subs, site.inOneof)
+			w := vh.Pick(r, ImplicitTypes)
+			if strings.Contains(site.desc, "/topic:") && r.Chance(70) {
+				w = vh.Pick(r, [][2]string{{"j5.messaging.v1", "RequestMetadata"}, {"j5.messaging.v1", "UpsertMetadata"}})
+			}
+			f := &Field{Kind: "objref", Ref: &Ref{Pkg: w[0], Name: w[1]}}
+			if !site.inOneof && r.Chance(20) {
+				f = &Field{Kind: "array", Item: f}
+			}
+			p := &Property{Name: g.fieldName(sc), F: f}
+			if !site.inOneof && r.Chance(20) {
+				p.Optional = true // also on the array form (plain repeated field)
+			}
+			*site.props = append(*site.props, p)
+			recs = append(recs, EditRec{"field", site.desc, p.Name + " ref to implicit type " + w[1], site.at.fieldEdit(r, p)})
 		case k < 55 && len(msgs) > 0: // field
 			site := vh.Pick(r, msgs)
 			sc := scopeOfMessage(site.path, *site.props, site.subs, site.inOneof)
